@@ -458,6 +458,53 @@ def preorder(n):
         yield from preorder(c)
 
 
+def e2e_problems(es, bodies, pages, res, w, stats=None):
+    """the statement, tested directly on the output of a full run over a clean tree"""
+    stats = stats if stats is not None else {"links_checked": 0, "max_depth": 0}
+    doc = w.root / "doc"
+    probs = []
+    # the pages the statement demands, at the mirrored paths, in the documented order
+    want = [o for _, o in pages]
+    got = [n["path"] for n in preorder(res)] if isinstance(res, dict) else []
+    if want != got:
+        probs.append(f"pages/order: expected {want}, node tree has {got}")
+    for src, out in pages:
+        f = doc / "page" / out
+        if not f.is_file():
+            probs.append(f"page {out} for {src} is missing")
+            continue
+        text = f.read_text(errors="replace")
+        if f"<h1>T:{src}</h1>" not in text:
+            probs.append(f"page {out} is not the rendering of {src}")
+        probs += check_links(doc, out, text)
+        stats["links_checked"] += len(LINK_RE.findall(text))
+        nav = nav_targets(doc, out, text)
+        if len(want) > 1 and nav != want:
+            probs.append(f"{out}: navigation lists {nav}, expected {want}")
+        stats["max_depth"] = max(stats["max_depth"], out.count("/"))
+        # breadcrumb: the index pages of the enclosing directories, outermost first
+        parts = posixpath.dirname(out).split("/") if posixpath.dirname(out) else []
+        chain = ["index.html"] + ["/".join(parts[:i + 1]) + "/index.html" for i in range(len(parts))]
+        if out.endswith("index.html"):
+            chain = chain[:-1]
+        if breadcrumb_targets(doc, out, text) != chain:
+            probs.append(f"{out}: breadcrumb {breadcrumb_targets(doc, out, text)}, expected {chain}")
+    # other files copied beside the pages of their directory
+    for rel, e in files_of(es):
+        if e is None:
+            continue
+        d = posixpath.dirname(rel)
+        n = e["n"]
+        if (d + "/index.html" if d else "index.html") not in want:
+            continue
+        if n.endswith(".md") or n.startswith(".") or n.endswith("~") or rel in want:
+            continue
+        f = doc / "page" / rel
+        if not f.is_file() or f.read_text() != f"SRC:{rel}\n":
+            probs.append(f"file {rel} was not copied beside its pages")
+    return probs
+
+
 def end_to_end(chk, rng, nproj):
     cases, infos = [], []
     stats = {"runs": 0, "pages": 0, "links_checked": 0, "max_depth": 0}
@@ -472,56 +519,14 @@ def end_to_end(chk, rng, nproj):
         res, fl, log, err, w = full_run(es, bodies)
         try:
             stats["runs"] += 1
+            stats["pages"] += len(pages)
             chk.count(("e2e", tuple(sorted(r for r, _ in files_of(es)))), nontrivial=len(pages) > 1,
                       sample={"e2e_files": sorted(r for r, _ in files_of(es)), "pages": [o for _, o in pages]})
             if err:
                 chk.violation("failing-input", {"what": "FORD failed on a valid page directory", "error": err,
-                                                "log": log[-1500:], "tree": es}, True)
+                                                "log": log[-1500:], "tree": es, "bodies": bodies}, True)
                 continue
-            doc = w.root / "doc"
-            probs = []
-            # the pages the statement demands, at the mirrored paths, in the documented order
-            want = [o for _, o in pages]
-            got = [n["path"] for n in preorder(res)] if isinstance(res, dict) else []
-            if want != got:
-                probs.append(f"pages/order: expected {want}, node tree has {got}")
-            for src, out in pages:
-                f = doc / "page" / out
-                if not f.is_file():
-                    probs.append(f"page {out} for {src} is missing")
-                    continue
-                text = f.read_text(errors="replace")
-                if f"<h1>T:{src}</h1>" not in text:
-                    probs.append(f"page {out} is not the rendering of {src}")
-                pl = check_links(doc, out, text)
-                stats["links_checked"] += len(LINK_RE.findall(text))
-                probs += pl
-                nav = nav_targets(doc, out, text)
-                if len(want) > 1 and nav != want:
-                    probs.append(f"{out}: navigation lists {nav}, expected {want}")
-                depth = out.count("/")
-                stats["max_depth"] = max(stats["max_depth"], depth)
-                # breadcrumb: the index pages of the enclosing directories, outermost first
-                parts = posixpath.dirname(out).split("/") if posixpath.dirname(out) else []
-                chain = ["index.html"] + ["/".join(parts[:i + 1]) + "/index.html" for i in range(len(parts))]
-                if out.endswith("index.html"):
-                    chain = chain[:-1]
-                if breadcrumb_targets(doc, out, text) != chain:
-                    probs.append(f"{out}: breadcrumb {breadcrumb_targets(doc, out, text)}, expected {chain}")
-            stats["pages"] += len(pages)
-            # other files copied beside the pages of their directory
-            for rel, e in files_of(es):
-                if e is None:
-                    continue
-                d = posixpath.dirname(rel)
-                n = e["n"]
-                if (d + "/index.html" if d else "index.html") not in want:
-                    continue
-                if n.endswith(".md") or n.startswith(".") or n.endswith("~") or rel in want:
-                    continue
-                f = doc / "page" / rel
-                if not f.is_file() or f.read_text() != f"SRC:{rel}\n":
-                    probs.append(f"file {rel} was not copied beside its pages")
+            probs = e2e_problems(es, bodies, pages, res, w, stats)
             if probs:
                 chk.violation("failing-input", {"what": "static pages of a full FORD run", "problems": probs[:10],
                                                 "tree": es, "bodies": bodies}, True)
@@ -605,12 +610,22 @@ def evaluate(chk, cases, infos, what):
                 chk.violation("failing-input", payload, True)
 
 
+def saved_corpus():
+    """corpus/C17/*.json: {"proj": [...], "tree": [...]} — minimised past failures, run first"""
+    import json
+    out = []
+    for f in sorted((core.VERIF / "corpus" / "C17").glob("*.json")):
+        j = json.load(open(f))
+        out.append((j.get("proj", []), j["tree"]))
+    return out
+
+
 def run(chk):
     chk.build(["theories/Corr/C17.vo", "theories/Props/C17.vo"])
     chk.props("theories/Props/C17.v", THEOREMS)
     rng = chk.rng
     quick = chk.tier == "quick"
-    inputs = list(CORPUS)
+    inputs = saved_corpus() + list(CORPUS)
     fam = list(exhaustive_family())
     chk.extra["exhaustive_family_size"] = len(fam)
     if quick:
@@ -661,10 +676,13 @@ def replay(chk, rep):
     es, proj = rep["tree"], rep.get("proj", [])
     if "bodies" in rep:
         res, fl, log, err, w = full_run(es, rep["bodies"])
-        w.__exit__()
+        try:
+            probs = [f"FORD failed: {err}"] if err else e2e_problems(es, rep["bodies"], spec_pages_py(es), res, w)
+        finally:
+            w.__exit__()
         print("full run:", err, "pages:", [n["path"] for n in preorder(res)] if isinstance(res, dict) else res)
-        print("problems recorded:", rep.get("problems"))
-        return 1
+        print("problems now:", probs[:10])
+        return 1 if probs else 0
     ires, fl, log = impl_direct(es, proj)
     print("impl tree:", [n["path"] for n in preorder(ires)] if isinstance(ires, dict) else ires)
     print("impl files:", fl)
